@@ -198,7 +198,7 @@ func genOp(t *vs.Tape, g *genCtx) storeOp {
 	case opAdd:
 		op.Sigs = []detection.Signature{genSig(t, g, true, true)}
 	case opAddBatch:
-		n := 1 + t.Weighted("batch.n", 2, 3, 3, 2, 1, 1, 1, 1)
+		n := 1 + t.Weighted("batch.n", 6, 9, 9, 6, 3, 3, 3, 3, 0, 0, 0, 0, 0, 0, 0, 0, 0, 0, 0, 0, 1, 0, 0, 0, 0, 0, 0, 0, 0, 0, 0, 0, 0, 0, 0, 0, 0, 0, 0, 1) // now and then 21 or 40 entries
 		for i := 0; i < n; i++ {
 			op.Sigs = append(op.Sigs, genSig(t, g, true, true))
 		}
